@@ -134,11 +134,11 @@ Qed.
 
 (* ---- setBatchesFromJSON *)
 
-Lemma wfe_json l : wfe (map (option_map strip_a05) (without_nil l)).
+Lemma wfe_json (c : bool) l : wfe (map (option_map (fun e => if c then clear_off (strip_a05 e) else strip_a05 e)) (without_nil l)).
 Proof.
   intros oe Hin. apply in_map_iff in Hin as (x & <- & Hx). unfold without_nil in Hx.
-  apply filter_In in Hx as [_ Hp]. destruct x as [e|]; [|discriminate]. exists (strip_a05 e). split; [reflexivity|].
-  cbn. unfold all_true. apply forallb_forall. intros p Hp'. apply filter_In in Hp' as [_ Hp']. exact Hp'.
+  apply filter_In in Hx as [_ Hp]. destruct x as [e|]; [|discriminate]. eexists. split; [reflexivity|].
+  destruct c; cbn; unfold all_true; apply forallb_forall; intros p Hp'; apply filter_In in Hp' as [_ Hp']; exact Hp'.
 Qed.
 
 Lemma wfa_json {A} (l : list (option A)) : forall oa, In oa (without_nil l) -> exists a, oa = Some a.
@@ -377,7 +377,15 @@ Proof.
   - eapply hoare_bind; [apply try_on_file_inv|intros ?; apply hoare_encode].
     apply hst_of. intros f Wf. apply hst_get. eapply hst_ro_end with (P := top); [apply batch_ids_safe; exact Wf|exact Wf|intros _ _; exact Wf].
   - destruct offset_ok; [|apply hoare_encode].
-    eapply hoare_bind; [apply try_on_file_inv; apply balance_file_inv|]. intros ?. apply hoare_encode.
+    eapply hoare_bind with (Q := fun r s => WR s /\ match r with Some g => WF g | None => True end).
+    { intros r o Hr.
+      assert (Hb : hoare WF (balance_file ;; get) (fun g f => WF f /\ WF g) WF).
+      { eapply hoare_bind; [apply balance_file_inv|]. intros ?. intros s o' Hs. split; exact Hs. }
+      pose proof (on_file_hoare id _ WF Hb r o Hr) as H.
+      destruct (on_file id (balance_file ;; get) r o) as [g r' o'|r' o'|]; [exact H|split; [exact H|exact I]|exact H]. }
+    intros [g|]; (eapply hoare_bind with (Q := fun _ => WR); [|intros ?; apply hoare_encode]).
+    + intros r o [Hr Hg]. exact (store_file_WR _ _ _ Hr Hg).
+    + apply hoare_ret. intros s [Hs _]. exact Hs.
   - (* segment a stored file *)
     eapply hoare_bind with (Q := fun r s => WR s /\ match r with Some (c, d) => WF c /\ WF d | None => True end).
     { intros r o Hr.
@@ -386,8 +394,8 @@ Proof.
       destruct H as [H1 H2]. split; [exact H1|exact H2]. }
     intros [[c d]|]; (eapply hoare_bind with (Q := fun _ => WR); [|intros ?; apply hoare_encode]).
     + eapply hoare_bind with (Q := fun _ s => WR s /\ WF d).
-      * intros r o [Hr [Hc Hd]]. split; [exact (store_file_WR _ _ _ Hr Hc)|exact Hd].
-      * intros ?. intros r o [Hr Hd]. exact (store_file_WR _ _ _ Hr Hd).
+      * intros r o [Hr [Hc Hd]]. unfold store_segmented. destruct (nonempty_file c); (split; [|exact Hd]); [exact (store_file_WR _ _ _ Hr Hc)|exact Hr].
+      * intros ?. intros r o [Hr Hd]. unfold store_segmented. destruct (nonempty_file d); [exact (store_file_WR _ _ _ Hr Hd)|exact Hr].
     + apply hoare_ret. intros s [Hs _]. exact Hs.
   - (* segment a file from the body *)
     eapply hoare_bind with (Q := fun fo r => WR r /\ match fo with Some f => WF f | None => True end).
@@ -404,8 +412,8 @@ Proof.
       destruct H as [_ H2]. split; [exact Hr|exact H2]. }
     intros [[c d]|]; (eapply hoare_bind with (Q := fun _ => WR); [|intros ?; apply hoare_encode]).
     + eapply hoare_bind with (Q := fun _ s => WR s /\ WF d).
-      * intros r o [Hr [Hc Hd]]. split; [exact (store_file_WR _ _ _ Hr Hc)|exact Hd].
-      * intros ?. intros r o [Hr Hd]. exact (store_file_WR _ _ _ Hr Hd).
+      * intros r o [Hr [Hc Hd]]. unfold store_segmented. destruct (nonempty_file c); (split; [|exact Hd]); [exact (store_file_WR _ _ _ Hr Hc)|exact Hr].
+      * intros ?. intros r o [Hr Hd]. unfold store_segmented. destruct (nonempty_file d); [exact (store_file_WR _ _ _ Hr Hd)|exact Hr].
     + apply hoare_ret. intros s [Hs _]. exact Hs.
   - (* flatten *)
     eapply hoare_bind with (Q := fun r s => WR s /\ match r with Some g => WF g | None => True end).
